@@ -128,6 +128,10 @@ def work_filter(p):
         files += [os.path.join(d, "linked_textwrap.py"), os.path.join(d, "linkdir", "alpha.py"), os.path.join(d, "linkdir", "sub", "beta.py"),
                   os.path.join(d, "stdlib_link", "json", "decoder.py"), os.path.join(d, "does_not_exist.py"),
                   os.path.join(d, "realpkg", "..", "realpkg", "alpha.py")]
+        # user directories that are siblings of a library root and merely share its name as a string prefix
+        for r in roots:
+            files += [r + "-local/x.py", r + "_apps/pkg/x.py", r + ".bak/x.py", r[:-1] + "/x.py", r + "2/json/decoder.py"]
+            res.count("sibling_prefix_paths", 5)
         cwd = os.getcwd()
         os.chdir(real)
         try:
@@ -136,7 +140,8 @@ def work_filter(p):
                 res.count("synthetic_paths")
                 res.seen("synthetic_kinds", "symlink" if "link" in f else ("relative" if not os.path.isabs(f) else "plain"))
                 judge(code_for(f, 100000 + i), "user-path")
-            for i, f in enumerate(["<string>", "<frozen importlib._bootstrap>", "<stdin>", "", "<vf-flight>", "<frozen zipimport>"]):
+            for i, f in enumerate(["<string>", "<frozen importlib._bootstrap>", "<stdin>", "", "<vf-flight>", "<frozen zipimport>", "<generated>:pricing",
+                                   "<template 'invoice.txt'>, line 3", "<rules>.py", "<stdin>#2", "<", "<ipython-input-3-abc>", "<doctest a.b[0]>"]):
                 res.count("synthetic_names")
                 judge(code_for(f, 200000 + i), "synthetic-name")
         finally:
@@ -336,6 +341,7 @@ def run(ck):
     ck.need("loaded_functions", 1000)
     ck.need("synthetic_paths", 10)
     ck.need("synthetic_names", 5)
+    ck.need("sibling_prefix_paths", 5)
     ck.need("twin_judgements", 4)
     ck.need("e2e_default", 5)
     ck.need("e2e_allow", 5)
